@@ -4,7 +4,7 @@ import json
 from . import common
 
 LEVEL = "exploration"
-RULE = ("random operation histories (add / import=add+inc_ref as build_package does / remove / rename to a fresh path / sort), <= 40 "
+RULE = ("random operation histories (add / import=add+inc_ref as build_package does / bare inc_ref / remove / rename to a fresh path / sort), <= 40 "
         "ops over 6 paths, applied to the real ModuleGraph through `vh graph`; after EVERY op all queries (get_node, parents, children, "
         "ancestors, depends_on, deep_depends_on over the universe, node order after sort) are compared with a dict-of-sets reference; "
         "plus erg_common::tsort on random graphs with and without cycles; distinct = distinct reference graph states reached")
@@ -12,7 +12,7 @@ MANIFEST = {
     "text": "State-machine monitoring: thousands of generated operation histories run against the real ModuleGraph, every query "
             "after every step compared with a 40-line reference graph; cycle refusal and topological order checked per step.",
     "technique": "history checker against an executable reference model (in-process harness)",
-    "note": "edges are only created the way build_package.rs creates them (target registered first), renames go to fresh names",
+    "note": "edges are created both as build_package.rs does (target registered first) and bare (target only an edge target); renames go to fresh names",
 }
 BASE = [f"/vgraph/m{i}.er" for i in range(6)]
 
@@ -37,8 +37,9 @@ class Ref:
             st += list(self.deps.get(x, ()))
         return seen
 
-    def imp(self, frm, to):
-        self.add(to)
+    def imp(self, frm, to, register_target=True):
+        if register_target:
+            self.add(to)
         self.add(frm)
         if frm == to:
             return "ok"
@@ -75,8 +76,11 @@ def gen_history(rng, maxlen):
         r = rng.random()
         if r < 0.12:
             ops.append(["add", rng.choice(live)])
-        elif r < 0.70:
+        elif r < 0.55:
             ops.append(["import", rng.choice(live), rng.choice(live)])
+        elif r < 0.70:
+            # bare edge: the target need not be registered (it is then only an edge target)
+            ops.append(["inc_ref", rng.choice(live), rng.choice(live)])
         elif r < 0.80:
             ops.append(["remove", rng.choice(live)])
         elif r < 0.90:
@@ -103,13 +107,21 @@ def check_history(rep, case, resp):
             ref.add(op[1])
         elif op[0] == "import":
             want = ref.imp(op[1], op[2])
+        elif op[0] == "inc_ref":
+            want = ref.imp(op[1], op[2], register_target=False)
         elif op[0] == "remove":
             ref.remove(op[1])
         elif op[0] == "rename":
             ref.rename(op[1], op[2])
         elif op[0] == "sort":
             want = "ok"   # cycles are refused at insertion and there are no dangling edges, so sort must succeed
-        if step["result"] != want:
+        dangling = sorted({d for ds in ref.deps.values() for d in ds if d not in ref.deps})
+        if op[0] == "sort" and dangling and step["result"] == "KeyNotFound":
+            # listed finding: an edge to a module that was never registered makes sort fail instead of sorting
+            rep.violation("sort:dangling-edge-keynotfound",
+                          f"step {k}: sort() returned KeyNotFound because of edges to unregistered modules {dangling}; no cycle exists", trim(case, k))
+            # the graph must be unchanged by the failed sort: keep checking the queries below
+        elif step["result"] != want:
             kind = "cycle-not-refused" if want == "CycleDetected" else ("cycle-false-alarm" if step["result"] == "CycleDetected" else "sort-failed")
             rep.violation(f"result:{op[0]}:{kind}", f"step {k} {op}: returned {step['result']}, reference says {want}", trim(case, k))
             return
@@ -134,7 +146,7 @@ def check_history(rep, case, resp):
         if sorted(order) != sorted(ref.nodes):
             rep.violation(f"nodes:after-{op[0]}", f"step {k} {op}: node list {order} != reference {ref.nodes}", trim(case, k))
             return
-        if op[0] == "sort":
+        if op[0] == "sort" and step["result"] == "ok":
             pos = {n: i for i, n in enumerate(order)}
             for n in order:
                 for d in ref.deps[n]:
